@@ -308,7 +308,7 @@ theorem inval_coh (d : Disk) (m m' : Mem) (sc a) (h : Coh d m) (ha : AgreeOff sc
 
 theorem stepImport_coh (s : State) (dry sc nm key n) (h : Coh s.disk s.mem) :
     Coh (stepImport s dry sc nm key n).1.disk (stepImport s dry sc nm key n).1.mem := by
-  unfold stepImport
+  unfold stepImport stepImportWith
   split
   · exact h
   · simp only []
